@@ -60,6 +60,9 @@ pub struct Sc {
     /// UTC) through the real today_local(), not through the library's test override.
     #[serde(default)]
     pub clock_tz: Option<i8>,
+    /// The cache directory is a symbolic link into another directory (a synchronised folder) for the whole history.
+    #[serde(default)]
+    pub cache_dir_link: bool,
     pub runs: Vec<Run>,
 }
 
@@ -218,7 +221,7 @@ pub fn generate(seed: u64, index: u64) -> Sc {
             kill_seed: if faulty && r.chance(1, 8) { Some(r.next_u64()) } else { None },
         });
     }
-    Sc { cal, format, cache, max_write: *r.pick(&[usize::MAX, usize::MAX, 4096, 512, 7]), max_read: *r.pick(&[usize::MAX, usize::MAX, 4096, 512, 7]), faulty, runs, eintr_every: 0, clock_tz: if r.chance(1, 4) { Some(*r.pick(&[5i8, 8, 12, -1, -9, -13])) } else { None } }
+    Sc { cal, format, cache, max_write: *r.pick(&[usize::MAX, usize::MAX, 4096, 512, 7]), max_read: *r.pick(&[usize::MAX, usize::MAX, 4096, 512, 7]), faulty, runs, eintr_every: 0, clock_tz: if r.chance(1, 4) { Some(*r.pick(&[5i8, 8, 12, -1, -9, -13])) } else { None }, cache_dir_link: Rng::new(crate::prng::mix(seed, 0x11CC, 13)).chance(1, 8) }
 }
 
 fn bucket(n: i64) -> &'static str {
@@ -261,6 +264,13 @@ impl Engine for C13 {
         let mut digest = fnv64(b"c13");
         let mut nontrivial = false;
         crate::interpose::with_world(|w| w.fs.disk = crate::simfs::Disk::new());
+        if sc.cache_dir_link && sc.cache == CacheKind::Csv {
+            crate::interpose::with_world(|w| {
+                w.fs.disk.put_dir("/simfs/home/sync/acb");
+                w.fs.disk.put_symlink(cache_dir_key(), if sc.max_write == usize::MAX { "sync/acb" } else { "/simfs/home/sync/acb" });
+            });
+            st.bump("probe.cache_directory_is_a_symbolic_link");
+        }
         let mut mem: MemState = MemState::new();
         let mut push = |v: Violation, violations: &mut Vec<Violation>| {
             if !violations.iter().any(|x| x.kind == v.kind && x.signature == v.signature) {
@@ -703,6 +713,11 @@ impl Engine for C13 {
                 s.runs.remove(i);
                 c.push(s);
             }
+        }
+        if sc.cache_dir_link {
+            let mut s = sc.clone();
+            s.cache_dir_link = false;
+            c.push(s);
         }
         if sc.runs.len() > 2 {
             let mut s = sc.clone();
